@@ -34,6 +34,7 @@ MonInitVal ==
     term |-> {},                 \* accepted terminating requests in this call chain
     termLate |-> {},             \* ... that landed after the plan had already ended (post-plan window)
     failedPause |-> FALSE,       \* a pause / suspension was requested while not resumable
+    hardReq |-> FALSE,           \* a hard pause has been requested (request_pause() or Msg('pause')) and not yet taken effect
     failedPauseSelf |-> FALSE,   \* ... by the plan's own Msg('pause')
     failedPauseLate |-> FALSE,   \* ... and it landed after the plan had already ended (tail): either status is acceptable
     inObsClose |-> FALSE,        \* (within one obs) a close_run message was seen: the next stop doc is the plan's
@@ -159,7 +160,11 @@ UpdNev(m, e) ==
 
 UpdDev(m, e) ==
   LET d == e[2] op == e[3] IN
-  IF d \notin Devices THEN m ELSE IF e[4] = "raise" THEN [m EXCEPT !.faulty = TRUE, !.devErrPending = TRUE, !.replaying = FALSE, !.expect = <<>>, !.c04off = TRUE]
+  IF d \notin Devices THEN m
+  ELSE IF e[4] = "raise" THEN
+       \* (a set() that raises may already have started the motion: the device counts as set -- it must be stopped -- C06)
+       [m EXCEPT !.faulty = TRUE, !.devErrPending = TRUE, !.replaying = FALSE, !.expect = <<>>, !.c04off = TRUE,
+                 !.dev[d].dirty = (@ \/ op = "set"), !.movedEver = IF op = "set" THEN @ \cup {d} ELSE @]
   ELSE CASE op = "stage" -> [m EXCEPT !.dev[d].stg = @ + 1]
          [] op = "read" ->
               IF m.curRun \in RunKeys /\ m.bundle[m.curRun].open
@@ -253,7 +258,8 @@ UpdMsg(m0, e) ==
       \* a pause requested by the plan itself (Msg('pause')): same bookkeeping as an external request
       m4p == IF cmd = "pause" /\ m4.st = "running"
              THEN (IF a = "T" THEN [m4 EXCEPT !.deferPending = TRUE]
-                   ELSE IF ~m4.ckpt THEN [m4 EXCEPT !.failedPause = TRUE, !.failedPauseSelf = TRUE] ELSE m4)
+                   ELSE IF ~m4.ckpt THEN [m4 EXCEPT !.hardReq = TRUE, !.failedPause = TRUE, !.failedPauseSelf = TRUE]
+                   ELSE [m4 EXCEPT !.hardReq = TRUE])
              ELSE m4
       \* a suspension starts: every moved device must be stopped (C11), one interruption record per open run (C40)
       m4s == IF cmd = "_start_suspender" /\ m4p.susUsed
@@ -347,15 +353,24 @@ UpdState(m, e) ==
       m1d == IF n \in {"aborting", "stopping", "halting"} THEN [m1c EXCEPT !.replaying = FALSE, !.expect = <<>>] ELSE m1c
       m2 == [m1d EXCEPT !.pausedNow = (n = "paused"), !.st = n, !.curRun = "none", !.curCmd = ""]
       \* C09: the pause that follows a deferred request: nothing to replay
-      m3 == IF n = "paused" /\ m.deferCkpt THEN ViolIf([m2 EXCEPT !.deferPending = FALSE, !.deferCkpt = FALSE], m.since # <<>>, "C09:replay-after-deferred-pause")
-            ELSE IF n = "pausing" /\ ~m.deferCkpt THEN [m2 EXCEPT !.deferPending = FALSE] ELSE m2
+      \* C09: a deferred pause takes effect at a checkpoint only: the engine must not start pausing on its own anywhere else
+      m2a == IF n = "pausing"
+             THEN ViolIf([m2 EXCEPT !.hardReq = FALSE], m.deferPending /\ ~m.deferCkpt /\ ~m.hardReq, "C09:deferred-pause-not-at-checkpoint")
+             ELSE m2
+      m3 == IF n = "paused" /\ m.deferCkpt THEN ViolIf([m2a EXCEPT !.deferPending = FALSE, !.deferCkpt = FALSE], m.since # <<>>, "C09:replay-after-deferred-pause")
+            ELSE IF n = "pausing" /\ ~m.deferCkpt THEN [m2a EXCEPT !.deferPending = FALSE] ELSE m2a
       \* C10: never paused after an interruption in a non-resumable section
       m4 == ViolIf(m3, n = "paused" /\ m.failedPause, "C10:paused-after-failed-pause")
   IN m4
 
 \* cause of the end of the call, for C02: what status must a run closed by the engine have
+\* the call raised what the plan itself raised (an error of the plan / a device / an engine answer the plan did not handle)
+ExcNames == {"PlanErr", "DevErr", "FailedStatus", "IMS", "InvalidCommand", "TransitionError", "WaitTimeout", "StopIteration",
+             "Err:ValueError", "Err:RuntimeError", "Err:KeyError", "Err:TypeError", "Err:AssertionError", "Err:AttributeError"}
+OwnErr(m, outcome) == \E x \in ExcNames : outcome = "exc:" \o x /\ m.planRaised = "raise:" \o x
 ExpectedStatus(m, outcome) ==
-  IF outcome \notin ({"ok", "interrupted"} \cup ControlExc) THEN {"fail"}
+  \* (an error that the plan did not raise, after a failed pause, is the engine's own: the run was to be aborted)
+  IF outcome \notin ({"ok", "interrupted"} \cup ControlExc) /\ (OwnErr(m, outcome) \/ ~m.failedPause) THEN {"fail"}
   ELSE IF m.termLate # {} \/ m.failedPauseLate THEN {"abort", "success"}      \* the plan had already ended when the request landed
   ELSE IF m.term \cap {"abort", "halt"} # {} /\ "stop" \in m.term THEN {"abort", "success"}
   ELSE IF m.term \cap {"abort", "halt"} # {} \/ m.failedPause THEN {"abort"}
@@ -412,7 +427,8 @@ UpdRet(m, e, s2) ==
                                       m.runs[o].engineClosed /\ m.runs[o].status \notin ExpectedStatus(m, outcome),
                                 "C02:exit-status")
                    \* C10: after a failed pause the call must report the interruption
-                   ff == ViolIf(ee, m.failedPause /\ outcome \in {"ok"} /\ op \in {"run", "resume"}, "C10:not-reported")
+                   ff == ViolIf(ee, m.failedPause /\ op \in {"run", "resume"}
+                                    /\ (outcome = "ok" \/ (outcome \notin ({"interrupted"} \cup ControlExc) /\ ~OwnErr(m, outcome))), "C10:not-reported")
                    \* C05: num_events present for every stream that has events
                    Missing(kd) == \E o \in 1..m.nruns : \E sn \in Streams :
                                       StreamClass(sn) = kd /\ m.runs[o].stopped = 1 /\ m.runs[o].maxseq[sn] > 0 /\ m.runs[o].nev[sn] = 99
@@ -451,7 +467,7 @@ UpdReq(m, e, s) ==
                                             pc |-> Where(m), st |-> m.st, res |-> m.ckpt, out |-> "", after |-> m.lastCmd])], e) ELSE
   LET kind == e[2]
       rec == [kind |-> kind, pc |-> Where(m), st |-> m.st, res |-> m.ckpt, out |-> "", after |-> m.lastCmd]
-  IN [m EXCEPT !.reqs = Append(@, rec), !.curCmd = "", !.curRun = "none"]
+  IN [m EXCEPT !.reqs = Append(@, rec), !.curCmd = "", !.curRun = "none", !.hardReq = (@ \/ kind = "pause")]
 
 UpdReqRet(m, e, s2) ==
   LET kind == e[2] out == e[3]
@@ -479,7 +495,7 @@ UpdCall(m, e, s) ==
                                !.bundle = [k \in RunKeys |-> [open |-> FALSE, mask |-> 0, n |-> 0, collide |-> FALSE]],
                                !.expectEvent = "none", !.gotEvent = FALSE, !.suspStopDue = {}, !.gotData = {},
                                !.keyOrd = [k \in RunKeys |-> 0],
-                               !.term = {}, !.termLate = {}, !.failedPause = FALSE, !.failedPauseLate = FALSE, !.failedPauseSelf = FALSE, !.callRuns = m.nruns, !.deferPending = FALSE,
+                               !.term = {}, !.termLate = {}, !.failedPause = FALSE, !.failedPauseLate = FALSE, !.failedPauseSelf = FALSE, !.hardReq = FALSE, !.callRuns = m.nruns, !.deferPending = FALSE,
                                !.deferCkpt = FALSE, !.since = <<>>, !.expect = <<>>, !.replaying = FALSE, !.ckpt = TRUE,
                                !.susp = {}, !.suspWait = FALSE, !.suspEver = FALSE, !.pausedNow = FALSE, !.faulty = FALSE, !.lastCmd = "", !.reqs = <<>>,
                                !.planDone = FALSE,
@@ -535,7 +551,7 @@ C07Settled == {"C07:not-settled:running", "C07:not-settled:pausing", "C07:not-se
 C08Tags == {"C08:interrupted-but-idle", "C08:interrupted-but-paused", "C08:interrupted-but-running", "C08:interrupted-but-pausing",
             "C08:interrupted-but-suspending", "C08:interrupted-but-aborting", "C08:interrupted-but-stopping", "C08:interrupted-but-halting",
             "C08:normal-return-without-completion", "C08:paused-in-non-resumable-section"}
-C09Tags == {"C09:pending-deferred-pause-not-reported", "C09:message-after-deferred-checkpoint", "C09:replay-after-deferred-pause"}
+C09Tags == {"C09:pending-deferred-pause-not-reported", "C09:message-after-deferred-checkpoint", "C09:replay-after-deferred-pause", "C09:deferred-pause-not-at-checkpoint"}
 C10Tags == {"C10:paused-after-failed-pause", "C10:not-reported", "C10:cleanup-interrupted:self-pause", "C10:cleanup-interrupted:request"}
 C11Tags == {"C11:plan-ran-while-suspender-tripped", "C11:moved-not-stopped-at-suspension", "C11:plan-resumed-during-suspension", "C11:returned-during-suspension"}
 C12Tags == {"C12:device-error-not-delivered", "C12:status-failure-after-checkpoint", "C12:status-failure-lost", "C12:unhandled-exception-not-raised"}
